@@ -14,3 +14,24 @@ def LegacyFuseStreamArg(**f):
     that signature."""
     return bool(f.get("optimizer") == "simple" and f.get("kind") == "optimized-run-error"
                 and "list_iterator" in str(f.get("error")) and "coords" in str(f.get("error")))
+
+
+_MEM_TABLE = {
+    # finding -> (program, func of the measured operation, compressor or None = any, data or None, optimize or None)
+    "F11": ("unstack", "unstack", None, None, None),
+    "F12": ("index-step", "__getitem__", None, None, None),
+    "F16": ("roll", "roll", None, None, True),
+    "F20": ("isfinite", "isfinite", "default", "random", None),
+    "F21": ("take", "take", None, None, None),
+}
+
+
+def MemUnderProjection(**f):
+    """Open C03 findings: each is one named catalogue program + the operation that exceeds + (where it matters) the
+    compressor / data / optimization setting.  Any other operation, or any other program, exceeding its projection is a
+    violation."""
+    for fid, (prog, func, comp, data, opt) in _MEM_TABLE.items():
+        if f.get("program") == prog and f.get("func") == func and (comp is None or f.get("compressor") == comp) \
+                and (data is None or f.get("data") == data) and (opt is None or f.get("optimize") == opt):
+            return True
+    return False
